@@ -140,6 +140,17 @@ func c15PanicClass(p any) string {
 	return "other"
 }
 
+// c15ErrInfo: an error that is a panic recovered inside a node's goroutine (eino turns it into a
+// NodeRunError carrying "panic error: …" and the stack); never compared, used to attribute a
+// disagreement to its cause
+func c15ErrInfo(err error) string {
+	s := err.Error()
+	if strings.Contains(s, "panic error:") && strings.Contains(s, "nil pointer dereference") {
+		return "recovered-nil-deref"
+	}
+	return ""
+}
+
 // c15PanicSide: which half of the field mapping code a panic was raised in, read off the stack
 // at the time of the recover (extraction along the source path / assignment along the target path).
 func c15PanicSide(stack string) string {
@@ -223,7 +234,7 @@ func c15RunT[I, T any](c *c15Case, vals []reflect.Value) *c15Impl {
 				}()
 				out, err := r.Invoke(ctx, input)
 				if err != nil {
-					run = c15Run{Class: "err"}
+					run = c15Run{Class: "err", Info: c15ErrInfo(err)}
 					c15Debug("invoke error: %.400v", err)
 					return
 				}
@@ -263,7 +274,7 @@ func c15RunT[I, T any](c *c15Case, vals []reflect.Value) *c15Impl {
 				}()
 				sr, err := r.Stream(ctx, input)
 				if err != nil {
-					run = c15Run{Class: "err"}
+					run = c15Run{Class: "err", Info: c15ErrInfo(err)}
 					c15Debug("stream error: %.400v", err)
 					return
 				}
@@ -274,7 +285,7 @@ func c15RunT[I, T any](c *c15Case, vals []reflect.Value) *c15Impl {
 						break
 					}
 					if err != nil {
-						run = c15Run{Class: "err"}
+						run = c15Run{Class: "err", Info: c15ErrInfo(err)}
 						c15Debug("stream recv error: %.400v", err)
 						return
 					}
@@ -408,9 +419,86 @@ func c15RunEq(a, b *c15Run) bool {
 	return a.Class == b.Class && vhCanonC15(a.Val) == vhCanonC15(b.Val)
 }
 
-// c15Shape: the part of the case that makes a run disagreement specific.
-func c15Shape(c *c15Case) string {
-	via, nilTaken := false, false
+// c15Found walks the source path `from` on the value v the way extraction does: via = an interface
+// value was crossed before the end, nilTaken = the path resolves and ends at an untyped nil.
+func c15Found(v reflect.Value, from []string) (via, nilTaken bool) {
+	x := v
+	for i := 0; i <= len(from); i++ {
+		if x.Kind() == reflect.Interface {
+			if i < len(from) {
+				via = true
+			}
+			if x.IsNil() {
+				if i == len(from) {
+					nilTaken = true
+				}
+				break
+			}
+			x = x.Elem()
+		}
+		if i == len(from) {
+			break
+		}
+		if x.Kind() == reflect.Ptr {
+			if x.IsNil() {
+				break
+			}
+			x = x.Elem()
+		}
+		switch x.Kind() {
+		case reflect.Struct:
+			if sf, ok := x.Type().FieldByName(from[i]); !ok {
+				x = reflect.Value{}
+			} else if fv, err := x.FieldByIndexErr(sf.Index); err != nil {
+				x = reflect.Value{}
+			} else {
+				x = fv
+			}
+		case reflect.Map:
+			x = x.MapIndex(reflect.ValueOf(from[i]))
+		default:
+			x = reflect.Value{}
+		}
+		if !x.IsValid() {
+			break
+		}
+	}
+	return via, nilTaken
+}
+
+// c15SlotType: the static type of the slot a path denotes on rt (compose checkAndExtractFieldType:
+// below an interface everything is `any`); crosses = an interface-typed slot is crossed before the
+// last segment (`intermediateInterface`: the type of what is found is only known at run time).
+func c15SlotType(rt reflect.Type, path []string) (slot reflect.Type, crosses, ok bool) {
+	for i, seg := range path {
+		if rt.Kind() == reflect.Map {
+			rt = rt.Elem()
+			continue
+		}
+		for rt.Kind() == reflect.Ptr {
+			rt = rt.Elem()
+		}
+		if rt.Kind() == reflect.Struct {
+			f, found := rt.FieldByName(seg)
+			if !found {
+				return nil, false, false
+			}
+			rt = f.Type
+			continue
+		}
+		if rt.Kind() != reflect.Interface {
+			return nil, false, false
+		}
+		if i < len(path)-1 {
+			return rt, true, true
+		}
+	}
+	return rt, false, true
+}
+
+// c15NilBehindIface: some mapping of the case has a source path that crosses an interface-typed
+// slot before its last segment and ends, on the value at hand, at an untyped nil.
+func c15NilBehindIface(c *c15Case) bool {
 	for _, d := range c.Decls {
 		st := c15Types[d.TyName]
 		if st == nil {
@@ -421,45 +509,39 @@ func c15Shape(c *c15Case) string {
 			continue
 		}
 		for _, m := range d.Maps {
-			x := v
-			for i := 0; i <= len(m.From); i++ {
-				if x.Kind() == reflect.Interface {
-					if i < len(m.From) {
-						via = true
-					}
-					if x.IsNil() {
-						if i == len(m.From) {
-							nilTaken = true
-						}
-						break
-					}
-					x = x.Elem()
+			if _, crosses, ok := c15SlotType(st.rt, m.From); ok && crosses {
+				if _, nilTaken := c15Found(v, m.From); nilTaken {
+					return true
 				}
-				if i == len(m.From) {
-					break
-				}
-				if x.Kind() == reflect.Ptr {
-					if x.IsNil() {
-						break
-					}
-					x = x.Elem()
-				}
-				switch x.Kind() {
-				case reflect.Struct:
-					if sf, ok := x.Type().FieldByName(m.From[i]); !ok {
-						x = reflect.Value{}
-					} else if fv, err := x.FieldByIndexErr(sf.Index); err != nil {
-						x = reflect.Value{}
-					} else {
-						x = fv
-					}
-				case reflect.Map:
-					x = x.MapIndex(reflect.ValueOf(m.From[i]))
-				default:
-					x = reflect.Value{}
-				}
-				if !x.IsValid() {
-					break
+			}
+		}
+	}
+	return false
+}
+
+// c15Shape: the part of the case that makes a run disagreement specific.
+func c15Shape(c *c15Case) string {
+	via, nilTaken := false, false
+	nilTo := ""
+	tt := c15Types[c.TargetName]
+	for _, d := range c.Decls {
+		st := c15Types[d.TyName]
+		if st == nil {
+			continue
+		}
+		v, err := c15Dec(d.Val, st.rt)
+		if err != nil {
+			continue
+		}
+		for _, m := range d.Maps {
+			vi, nt := c15Found(v, m.From)
+			via = via || vi
+			nilTaken = nilTaken || nt
+			if nt && tt != nil {
+				// an untyped nil on its way to a slice / func / chan slot (kinds that have a nil in Go;
+				// the field mapping code takes it for the slice only)
+				if slot, _, ok := c15SlotType(tt.rt, m.To); ok && c15IsOpq(slot) && (nilTo == "" || c15OpqKind(slot) < nilTo) {
+					nilTo = c15OpqKind(slot)
 				}
 			}
 		}
@@ -470,6 +552,9 @@ func c15Shape(c *c15Case) string {
 	}
 	if nilTaken {
 		s += ":nil-value"
+	}
+	if nilTo != "" {
+		s += ":nil-to-" + nilTo
 	}
 	return s
 }
@@ -570,6 +655,40 @@ func c15Compare(c *c15Case, model *c15Model, impl *c15Impl) []c15Finding {
 			what = "a promoted source field behind a nil embedded pointer: the run panics (reflect: indirection through nil pointer to embedded struct) instead of returning an error like for every other nil pointer on a source path"
 		}
 		return []c15Finding{{"C15:promoted:nil-embedded-pointer:" + embSide, what}}
+	}
+	// one finding per case for the run-time checker of a source path that crosses an interface
+	// (validateFieldMapping, `predecessorIntermediateInterface`) dereferencing the nil reflect.Type of
+	// an untyped nil: whichever of Invoke / Stream reaches the checker panics, whatever the target
+	// kind; what else differs in such a case is a consequence
+	nilDeref := false
+	how := ""
+	for _, r := range impl.Invoke {
+		if r.Class == "panic" && r.Info == "nil-deref" {
+			nilDeref = true
+			how = "Invoke panics"
+		} else if r.Class == "err" && r.Info == "recovered-nil-deref" {
+			nilDeref = true
+			how = "Invoke returns the panic, recovered in a node's goroutine, as an error"
+		}
+	}
+	if impl.Stream != nil && (impl.Stream.Info == "nil-deref" || impl.Stream.Info == "recovered-nil-deref") {
+		nilDeref = true
+		if how != "" {
+			how += ", "
+		}
+		if impl.Stream.Class == "panic" {
+			how += "Stream panics"
+		} else {
+			how += "Stream returns the panic, recovered in a node's goroutine, as an error"
+		}
+	}
+	if nilDeref && c15NilBehindIface(c) {
+		mi := "-"
+		if model.Invoke != nil {
+			mi = model.Invoke.Class
+		}
+		return []c15Finding{{"C15:invoke:impl=panic:nil-behind-interface:source-path-through-interface",
+			"a source path that crosses an interface before its last segment ends at an untyped nil: the run-time checker calls reflect.TypeOf(nil).AssignableTo (nil pointer dereference) and the panic leaves the run (" + how + "; the property demands an error, or the nil where nil is a value: model Invoke " + mi + ")"}}
 	}
 	shape := c15Shape(c)
 	if model.Promoted {
@@ -813,17 +932,22 @@ func c15Pick(r *vh.Rand, names []string, weights []int) string {
 
 var (
 	c15TargetNames = []string{"Top", "PTop", "Mid", "PMid", "MapAny", "MapStr", "MapLeaf", "MapPMid", "MapMid", "Any", "Leaf", "Str",
-		"EmbV", "PEmbV", "EmbP", "PEmbP", "Emb2", "PEmb2P", "Wrap", "PM", "PPM", "MapPMap", "MapEmbV"}
+		"EmbV", "PEmbV", "EmbP", "PEmbP", "Emb2", "PEmb2P", "Wrap", "PM", "PPM", "MapPMap", "MapEmbV",
+		"Opq", "POpq", "MapSS", "MapFunc", "MapChan"}
 	c15TargetWeights = []int{32, 10, 10, 5, 10, 5, 5, 5, 6, 6, 4, 2,
-		6, 3, 4, 2, 5, 3, 10, 4, 2, 2, 3}
+		6, 3, 4, 2, 5, 3, 10, 4, 2, 2, 3,
+		8, 2, 2, 2, 2}
 	c15SourceNames = []string{"Top", "PTop", "Mid", "PMid", "Leaf", "PLeaf", "MapAny", "MapStr", "MapLeaf", "MapPMid",
-		"EmbV", "PEmbV", "EmbP", "PEmbP", "Emb2", "PEmb2P", "Wrap", "PM", "PPM", "MapPMap", "MapEmbV"}
+		"EmbV", "PEmbV", "EmbP", "PEmbP", "Emb2", "PEmb2P", "Wrap", "PM", "PPM", "MapPMap", "MapEmbV",
+		"Opq", "POpq", "MapSS", "MapFunc", "MapChan"}
 	c15SourceWeights = []int{38, 10, 15, 6, 5, 3, 10, 5, 4, 4,
-		7, 3, 5, 2, 6, 4, 12, 4, 2, 2, 3}
+		7, 3, 5, 2, 6, 4, 12, 4, 2, 2, 3,
+		8, 2, 1, 1, 1}
 	c15StartNames = []string{"Top", "Top", "MapAny", "Wrap", "PEmbP"}
 	c15DynTypes   = []reflect.Type{reflect.TypeOf(""), reflect.TypeOf(0), reflect.TypeOf(C15Leaf{}), reflect.TypeOf(&C15Leaf{}),
 		reflect.TypeOf(map[string]any{}), reflect.TypeOf(map[string]string{}), reflect.TypeOf(C15Mid{}), reflect.TypeOf(&C15Mid{}),
-		reflect.TypeOf(C15EmbV{}), reflect.TypeOf(&C15EmbP{}), reflect.TypeOf(&C15Emb2{}), reflect.TypeOf(&map[string]string{})}
+		reflect.TypeOf(C15EmbV{}), reflect.TypeOf(&C15EmbP{}), reflect.TypeOf(&C15Emb2{}), reflect.TypeOf(&map[string]string{}),
+		reflect.TypeOf([]string{}), reflect.TypeOf((func() string)(nil)), reflect.TypeOf((chan int)(nil))}
 )
 
 func c15GenVal(r *vh.Rand, rt reflect.Type, depth int) reflect.Value {
@@ -833,12 +957,16 @@ func c15GenVal(r *vh.Rand, rt reflect.Type, depth int) reflect.Value {
 		v.SetString([]string{"", "a", "b", "hello"}[r.Intn(4)])
 	case reflect.Int:
 		v.SetInt(int64([]int{0, 1, 7, -3}[r.Intn(4)]))
+	case reflect.Slice, reflect.Func, reflect.Chan:
+		if os := c15OpqVals[rt]; len(os) > 0 && !r.Chance(35) {
+			v.Set(os[r.Intn(len(os))].v)
+		}
 	case reflect.Interface:
 		if r.Chance(20) || depth <= 0 {
 			return v
 		}
 		dt := c15DynTypes[r.Intn(len(c15DynTypes))]
-		if depth <= 1 && dt.Kind() != reflect.String && dt.Kind() != reflect.Int {
+		if depth <= 1 && dt.Kind() != reflect.String && dt.Kind() != reflect.Int && !c15IsOpq(dt) {
 			dt = c15DynTypes[r.Intn(4)]
 		}
 		v.Set(c15GenVal(r, dt, depth-1))
@@ -1085,6 +1213,7 @@ func c15Fixed() []*c15Case {
 		return &c15Case{TargetName: target, Target: c15Types[target].desc, Stream: "fixed", Emb: c15EmbTable,
 			Decls: []c15Decl{{Pred: "p0", TyName: src, Ty: st.desc, Val: c15Enc(sv), Maps: maps}}}
 	}
+	viaNode := func(c *c15Case) *c15Case { c.ViaNode = true; return c }
 	embV := C15EmbV{C15Base: C15Base{ID: "id-1", N: 7, S: "inner", PL: &C15Leaf{S: "pl", N: 2}}, Name: "nm", S: "outer"}
 	emb2 := C15Emb2{C15EmbV: embV, X: "x"}
 	wrap := C15Wrap{S: "w", E: embV, PE: &embV, E2: emb2}
@@ -1165,6 +1294,16 @@ func c15Fixed() []*c15Case {
 		mkS("MapPMap", "Leaf", leaf, m("N", "k1.k2")),
 		mkS("Leaf", "PM", pm, m("MPM.k1.k2", "N")),
 		mkS("MapAny", "Wrap", C15Wrap{PPM: &pm}, m("PPM.M.k1", "k1")),
+		// a mapping to the whole input (FromField, empty target path) and a field mapping in ONE
+		// AddInput call, both with a source field: an overlap in either order, also when the
+		// successor is a node
+		mkS("MapAny", "Top", v.Interface(), m("MA", ""), m("S", "x")),
+		mkS("MapAny", "Top", v.Interface(), m("S", "x"), m("MA", "")),
+		mkS("PLeaf", "Top", v.Interface(), m("PL", ""), m("S", "S")),
+		mkS("PLeaf", "Top", v.Interface(), m("PL", ""), m("N", "N"), m("S", "S")),
+		viaNode(mkS("MapAny", "Top", v.Interface(), m("MA", ""), m("S", "x"))),
+		viaNode(mkS("MapAny", "Top", v.Interface(), m("MA", ""), m("S", "k1.k2"))),
+		viaNode(mkS("MapAny", "Top", v.Interface(), m("S", "k1.k2"), m("MA", ""))),
 	}
 }
 
